@@ -10,7 +10,7 @@ import re
 import types
 import typing
 
-from .. import core, lean
+from .. import core, iso, lean
 from ..runner import Result
 
 ID = "C20"
@@ -646,6 +646,53 @@ def check_interpreter_facts(ns, spec, future, res):
                                   "input": {"s": "<_GENERICS>"}, "real": live, "model": spec.get("table")})
 
 
+# ---- the same text under another union name first (transform's keyword `union`): what the default call returns is a function of the
+# text alone, and the given name is honoured in either order
+def _union_name_child(job):
+    order, items = job
+    import ast as _ast
+    core.import_typelib()
+    from typelib.py import future
+    bad = []
+    for s, expected in items:
+        try:
+            if order == "custom-first":
+                a, b = future.transform(s, union="U_"), future.transform(s)
+            else:
+                b, a = future.transform(s), future.transform(s, union="U_")
+        except Exception as e:  # noqa: BLE001
+            bad.append([s, f"raised {type(e).__name__}: {e}"])
+            continue
+        if b != expected:
+            bad.append([s, f"transform(s) = {b!r} ({order}: union='U_' gave {a!r}); alone it is {expected!r}"])
+            continue
+        names = {n.id for n in _ast.walk(_ast.parse(a, mode="eval")) if isinstance(n, _ast.Name)}
+        if "typing.Union[" in expected.replace(" ", "") and "U_" not in names and "U_" not in s:
+            bad.append([s, f"transform(s, union='U_') = {a!r} ({order}): the given union name is not used"])
+    return bad
+
+
+def union_name_probe(res, records):
+    import ast as _ast
+    items = []
+    for s, out in records:
+        try:
+            if has_pipe(parse_body(s)) and "typing.Union" not in s:
+                items.append((s, out))
+        except SyntaxError:
+            continue
+    items = items[:400]
+    outs = iso.map_isolated(_union_name_child, [("custom-first", items), ("default-first", items)], timeout=120.0)
+    for order, bad in zip(("custom-first", "default-first"), outs):
+        if not isinstance(bad, list):
+            raise RuntimeError(f"harness: union-name probe failed: {bad}")
+        res.case({"family": "same-text-under-another-union-name", "order": order, "texts": len(items)}, True)
+        for s, what in bad[:20]:
+            res.failures.append({"what": what, "input": {"s": s, "stream": "union-name", "order": order}})
+        if not bad:
+            res.count("oracle:union-name-honoured-and-default-unaffected", len(items))
+
+
 def explore(ctx):
     res = Result()
     res.rule = RULE
@@ -708,6 +755,7 @@ def explore(ctx):
             res.disagreements.append({"what": "noConstructs", "input": inp, "real": not rec["constructs"], "model": m["noConstructs"]})
         if not m["noPipe"]:
             res.disagreements.append({"what": "noPipe of the model's output", "input": inp, "real": True, "model": False})
+    union_name_probe(res, [(s, rec["out"]) for s, stream, j_out, rec in meta if "out" in rec])
     return res
 
 
